@@ -23,7 +23,7 @@ func TestReplay(t *testing.T) { vh.Replay(t) }
 var profile = life.Profile{
 	MaxOps: 24, WSend: 7, WPanic: 4, WGate: 5, WRelease: 4, WPoison: 1, WStop: 1, WRespawn: 2, WBurst: 2,
 	MaxChain: 1, MaxChildren: 0, Lifecycle: true, SpawnSends: true, MaxBudget: 4,
-	Spins: []int{0, 0, 10, 100, 1000},
+	Spins: []int{0, 0, 10, 100, 1000}, WChain: 2,
 }
 
 // non-trivial: a crash happened and a gate (blocked Receive) was part of the history, or
